@@ -15,6 +15,8 @@ import (
 	"net/http"
 	"sort"
 	"strings"
+	"sync"
+	"sync/atomic"
 
 	"reservoir/cache"
 	"verifharness/core"
@@ -133,6 +135,8 @@ func c02class(a, b c02target) string {
 		return "long-target-differing-near-the-end"
 	case !strings.EqualFold(a.Host, b.Host):
 		return "host"
+	case strings.Contains(strings.ToUpper(a.Path+b.Path), "%25") && (strings.ReplaceAll(strings.ToUpper(a.Path), "%25", "%") == strings.ToUpper(b.Path) || strings.ReplaceAll(strings.ToUpper(b.Path), "%25", "%") == strings.ToUpper(a.Path)):
+		return "escaped-percent-sign"
 	case strings.TrimSuffix(a.Path, "/") == strings.TrimSuffix(b.Path, "/") && a.Query == b.Query:
 		return "trailing-slash"
 	case strings.Contains(strings.ToUpper(a.Path+b.Path), "%2F") && strings.ReplaceAll(strings.ToUpper(a.Path), "%2F", "/") == strings.ReplaceAll(strings.ToUpper(b.Path), "%2F", "/") && a.Query == b.Query:
@@ -210,6 +214,17 @@ func c02generate(b core.Batch) []c02target {
 			out = append(out, c02target{"GET", "localhost:80", "/long", "?" + strings.Repeat("k=v&", n/4) + "part=" + suf})
 		}
 	}
+	// an encoded percent sign: "%25XX" is the three characters "%XX", not the character XX stands for. Every
+	// enumerated path that contains an escape is also emitted with its percent signs escaped once more, plus a fixed list.
+	for pi, p := range paths {
+		if strings.Contains(p, "%") && pi%7 == 0 {
+			out = append(out, c02target{"GET", "localhost:80", strings.ReplaceAll(p, "%", "%25"), ""})
+			out = append(out, c02target{"GET", "localhost:80", strings.ReplaceAll(p, "%", "%2525"), ""})
+		}
+	}
+	for _, p := range []string{"/npm/@scope%2Fname", "/npm/@scope%252Fname", "/files/report%41.pdf", "/files/report%2541.pdf", "/k%2f", "/k%252f", "/x%20y", "/x%2520y", "/%25", "/%2525", "/q%3Fx", "/q%253Fx", "/h%23", "/h%2523"} {
+		out = append(out, c02target{"GET", "localhost:80", p, ""}, c02target{"GET", "localhost:80", "/pre" + p, "?v=1"})
+	}
 	// seeded random longer targets
 	rng := b.Rand("c02")
 	for i := 0; i < b.Int("random", 20000); i++ {
@@ -267,6 +282,43 @@ func c02Run(b core.Batch, r *core.Recorder) {
 	r.Eval(int64(parsed))
 	r.Count("targets_keyed", int64(parsed))
 	r.Count("distinct_keys", int64(len(byKey)))
+
+	// the key is a function of the target alone: the same targets keyed from 8 goroutines at once give the keys
+	// they gave one at a time (a key computed in shared scratch space would hand one request another's entry)
+	{
+		step := max(1, len(targets)/4000)
+		var sample []int
+		for i := 0; i < len(targets); i += step {
+			if keys[i] != "" {
+				sample = append(sample, i)
+			}
+		}
+		var wg sync.WaitGroup
+		var bad atomic.Int64
+		var first atomic.Value
+		for g := 0; g < 8; g++ {
+			wg.Add(1)
+			go func() {
+				defer wg.Done()
+				for rep := 0; rep < 3; rep++ {
+					for k := range sample {
+						i := sample[(k*7+g*131)%len(sample)]
+						if kk, ok := c02key(targets[i]); !ok || kk.Hex != keys[i] {
+							bad.Add(1)
+							first.CompareAndSwap(nil, targets[i].wire())
+						}
+					}
+				}
+			}()
+		}
+		wg.Wait()
+		r.Eval(1)
+		r.Count("keys_recomputed_concurrently", int64(len(sample)*24))
+		if bad.Load() > 0 {
+			r.Violation("C02", "C02:key-depends-on-concurrent-requests", fmt.Sprintf("%d of %d keys computed from 8 goroutines at once differ from the key the same target got on its own (first: %v)", bad.Load(), len(sample)*24, first.Load()),
+				map[string]any{"id": "concurrent-keys"}, nil)
+		}
+	}
 
 	// candidate pairs
 	perClass := map[string][]c02pair{}
